@@ -208,9 +208,23 @@ def _array_case(draw):
         radius = {"t": "pair", "i": draw(st.integers(0, 95)), "j": draw(st.integers(0, 95))}
     else:
         radius = {"t": "default"}
-    return {"off": off, "len": length, "radius": radius, "extra": draw(st.integers(1, 1200)), "m": draw(st.integers(1, 16)),
-            "edges": draw(st.booleans()), "nan_row": draw(st.booleans()), "f64": draw(st.booleans()),
-            "pad": draw(st.sampled_from([None, None, -1])), "seed": draw(st.integers(0, 2 ** 32 - 1))}
+    a = {"off": off, "len": length, "radius": radius, "extra": draw(st.integers(1, 1200)), "m": draw(st.integers(1, 16)),
+         "edges": draw(st.booleans()), "nan_row": draw(st.booleans()), "f64": draw(st.booleans()),
+         "pad": draw(st.sampled_from([None, None, -1])), "seed": draw(st.integers(0, 2 ** 32 - 1))}
+    # dimensions: layout / dtype / read-only of every argument, re-use of the same argument objects, verbose option
+    a["geom_kind"] = draw(st.sampled_from(["c64", "c64", "f_order", "transposed", "strided", "f32", "int"]))
+    a["geom_ro"] = draw(st.sampled_from([False, False, True]))
+    a["ci_seq"] = draw(st.sampled_from([True, True, False]))
+    a["arr_layout"] = draw(st.sampled_from(["c", "c", "t", "t", "strided_rows", "strided_cols"]))
+    a["arr_ro"] = draw(st.sampled_from([False, False, True]))
+    a["arr_int16"] = a["nan_row"] and draw(st.sampled_from([False, False, False, True]))
+    a["nb_kind"] = draw(st.sampled_from(["int64", "int64", "int32", "f_order", "readonly"]))
+    a["df_dt"] = [draw(st.sampled_from(["int64", "int64", "int32", "uint32"])),
+                  draw(st.sampled_from(["int64", "int64", "int32", "int16", "uint8", "uint64"]))]
+    a["df_index"] = draw(st.sampled_from(["range", "range", "offset", "shuffled"]))
+    a["verbose"] = draw(st.sampled_from([False, False, False, True]))
+    a["repeat"] = draw(st.sampled_from([True, True, False]))
+    return a
 
 
 @st.composite
@@ -240,17 +254,50 @@ def _case(draw, tier):
         case["sort"] = draw(st.sampled_from([True, True, False]))
         case["cchunk"] = draw(st.sampled_from([1000, 3000, 7000, 30000]))
         nch = spec["n"]
-    chunks = [draw(_ST_CHUNK), draw(_ST_CHUNK)]
+    # documented options in their default form: chunksize_samples (3000), n_jobs, max_wf (256) left out of the call
+    omit_chunk = [draw(st.integers(0, 7)) == 0 for _ in range(2)]
+    chunks = [3000 if omit_chunk[k] else draw(_ST_CHUNK) for k in range(2)]
     loky = tier == "thorough" and draw(st.integers(0, 79)) == 0
     case["runs"] = [{"chunk": chunks[0], "jobs": draw(st.integers(1, 8)), "backend": "threading"},
                     {"chunk": chunks[1], "jobs": draw(st.integers(2, 3) if loky else st.integers(1, 8)),
                      "backend": "loky" if loky else "threading"}]
-    max_wf = draw(st.one_of(st.integers(1, 6), st.integers(1, 24)))
+    for k, run in enumerate(case["runs"]):
+        if omit_chunk[k]:
+            run["omit_chunk"] = True
+        if run["backend"] == "threading" and draw(st.integers(0, 7)) == 0:
+            run["omit_jobs"] = True
+    omit_max_wf = draw(st.integers(0, 15)) == 0
+    max_wf = 256 if omit_max_wf else draw(st.one_of(st.integers(1, 6), st.integers(1, 24)))
     case["max_wf"] = max_wf
+    dims = {"path": draw(st.sampled_from(["path", "path", "str"])),
+            "spk": draw(st.sampled_from(["contig", "contig", "strided", "negstride"])),
+            "ro": draw(st.sampled_from([False, False, True])),
+            "wfs_dtype": draw(st.sampled_from([None, None, None, "float32", "float16", "float64"])),
+            "chan_labels": draw(st.sampled_from([False, False, False, True])),
+            "check_args": True}
+    if omit_max_wf:
+        dims["omit_max_wf"] = True
+    if mode.startswith("flat"):
+        dims["h"] = draw(st.sampled_from(["f64", "f64", "f32", "int"]))
+    else:
+        dims["h"] = draw(st.sampled_from(["file", "file", "same", "other", "other"]))
+        if dims["h"] == "other":
+            kind = draw(st.sampled_from(["np1", "np2", "np24", "ultra"]))
+            dims["hgeom"] = {"kind": kind, "n": nch, "layout": draw(st.sampled_from(["dense", "sparse", "shuffled"])),
+                             "start": draw(st.integers(0, _GRID_LEN[kind] - 3 * nch)), "gseed": draw(st.integers(0, 2 ** 32 - 1))}
+        if case["sort"]:
+            dims["omit_reader_kwargs"] = draw(st.sampled_from([False, False, True]))
+        if mode == "meta_cbin":
+            dims["omit_scratch_last"] = draw(st.sampled_from([False, False, True]))
+    if draw(st.integers(0, 3)) == 0:
+        # an earlier, larger extraction into the output directory of the first configuration
+        dims["prerun"] = {"add": draw(st.integers(1, 20)), "seed": draw(st.integers(0, 2 ** 32 - 1)),
+                          "loader": draw(st.booleans())}
+    case["dims"] = dims
     # never None: default_rng(None) takes OS entropy and a replay would not be a function of the case any more
     case["seed"] = draw(st.one_of(st.integers(0, 3), st.integers(0, 2 ** 32 - 1)))
     lead_invalid = draw(st.booleans())
-    nunits = draw(st.integers(1, 6))
+    nunits = draw(st.integers(1, 2 if omit_max_wf else 6))
     ids = draw(st.lists(st.one_of(st.integers(0, 12), st.integers(0, 100000)), min_size=nunits, max_size=nunits,
                         unique=True))
     units = []
@@ -289,8 +336,13 @@ def _case(draw, tier):
     for _ in range(2):
         lab = draw(st.one_of(st.none(), st.lists(st.integers(0, nunits - 1), min_size=1, max_size=nunits, unique=True)))
         ind = draw(st.one_of(st.none(), st.lists(st.integers(0, max_wf + 1), min_size=1, max_size=6, unique=True)))
-        queries.append({"labels": lab, "indices": ind})
+        queries.append({"labels": lab, "indices": ind,
+                        "lab_kind": draw(st.sampled_from(["array", "array", "list", "tuple", "int32", "uint64"])),
+                        "ind_kind": draw(st.sampled_from(["list", "list", "array", "tuple", "int32", "uint64"])),
+                        "flatten": draw(st.sampled_from([False, False, True]))})
     case["queries"] = queries
+    case["ldims"] = {"dir": draw(st.sampled_from(["path", "path", "str"])), "omit_trough": draw(st.booleans()),
+                     "twice": draw(st.booleans()), "scribble": draw(st.booleans())}
     case["arr"] = draw(_array_case())
     return case
 
@@ -374,10 +426,59 @@ KNOWN = {"first_spike_dropped": known_first_spike, "window_params_ignored": know
 # ---------------------------------------------------------------------------------------------------
 # in-memory sub-case: make_channel_index(radius) + extract_wfs_array(offset, length)
 
+def _readonly(v):
+    """What np.memmap(mode='r') hands out: the buffer (and so every view of it) refuses writes."""
+    b = v
+    while isinstance(getattr(b, "base", None), np.ndarray):
+        b = b.base
+    b.flags.writeable = False
+    v.flags.writeable = False
+    return v
+
+
+def _geom_array(x, y, kind, ro):
+    xf, yf = np.asarray(x, dtype=float), np.asarray(y, dtype=float)
+    if kind == "f_order":
+        g = np.asfortranarray(np.c_[xf, yf])
+    elif kind == "transposed":
+        g = np.vstack([xf, yf]).T
+    elif kind == "strided":
+        g = np.c_[xf, 0 * xf, yf, 0 * xf][:, ::2]
+    elif kind == "f32":
+        g = np.c_[xf, yf].astype(np.float32)
+    elif kind == "int":
+        g = np.c_[xf, yf].astype(np.int64)
+    else:
+        g = np.c_[xf, yf]
+    return _readonly(g) if ro else g
+
+
+def _trace_layout(G, kind, ro):
+    """The same (rows, samples) values in another memory layout."""
+    if kind == "t":  # what the readers hand over: transposed view of a (samples, channels) block
+        v = np.ascontiguousarray(G.T).T
+    elif kind == "strided_rows":
+        big = np.zeros((2 * G.shape[0], G.shape[1]), dtype=G.dtype)
+        big[::2] = G
+        v = big[::2]
+    elif kind == "strided_cols":
+        big = np.zeros((G.shape[0], 2 * G.shape[1] + 1), dtype=G.dtype)
+        big[:, 1::2] = G
+        v = big[:, 1::2]
+    else:
+        v = G.copy()
+    return _readonly(v) if ro else v
+
+
+def _same_array(a, b):
+    return np.shape(a) == np.shape(b) and np.array_equal(np.asarray(a), np.asarray(b), equal_nan=True)
+
+
 def _array_level(case, ctx, x, y):
     a = case.get("arr")
     if not a:
         return
+    import pandas as pd
     ut = sut.utils()
     wx = sut.waveform_extraction()
     nch = len(x)
@@ -394,12 +495,15 @@ def _array_level(case, ctx, x, y):
     lists = _neighbour_lists(x, y, r2)
     pad = a["pad"]
     exp_ci = _neighbour_table(lists, nch if pad is None else pad)
-    geom = np.c_[np.asarray(x, dtype=float), np.asarray(y, dtype=float)]
+    gk, gro = a.get("geom_kind", "c64"), bool(a.get("geom_ro", False))
+    geom = _geom_array(x, y, gk, gro)
+    geom0 = np.array(geom, copy=True)
     kw = {}
     if radius is not None:
         kw["radius"] = radius
     if pad is not None:
         kw["pad_val"] = pad
+    ctx.label("arr_geom_" + gk, "arr_geom_readonly" if gro else "arr_geom_writeable")
     ci = ctx.call("C13.channel_index", ut.make_channel_index, geom, **kw)
     if ci is ctx.CRASH:
         return
@@ -407,9 +511,47 @@ def _array_level(case, ctx, x, y):
     ctx.label("arr_radius_" + rd["t"], "arr_nn=1" if nn == 1 else ("arr_nn=all" if nn == nch else "arr_nn_mid"),
               "arr_padded" if any(len(v) < nn for v in lists) else "arr_unpadded")
     if not ctx.check(np.shape(ci) == exp_ci.shape and np.array_equal(ci, exp_ci), "C13.channel_index",
-                     lambda: f"make_channel_index(radius={radius}, pad_val={pad}) shape {np.shape(ci)} != ascending sites "
-                             f"within the radius padded with {nch if pad is None else pad} (shape {exp_ci.shape})"):
+                     lambda: f"make_channel_index({gk} geometry, radius={radius}, pad_val={pad}) shape {np.shape(ci)} != "
+                             f"ascending sites within the radius padded with {nch if pad is None else pad} (shape {exp_ci.shape})"):
         return
+    if a.get("ci_seq", False):
+        # the table handed out belongs to the caller: overwrite it, ask for another table of the same geometry object
+        # (other radius, other padding), then repeat the first request
+        ctx.label("arr_channel_index_sequence")
+        try:
+            if isinstance(ci, np.ndarray) and ci.flags.writeable:
+                ci[...] = -9
+        except Exception:  # noqa
+            pass
+        pad2 = -1 if pad is None else None
+        rad2 = 150.5  # never a tie: squared distances are integers
+        lists2 = _neighbour_lists(x, y, rad2 * rad2)
+        kw2 = {"radius": rad2}
+        if pad2 is not None:
+            kw2["pad_val"] = pad2
+        exp2 = _neighbour_table(lists2, nch if pad2 is None else pad2)
+        c2 = ctx.call("C13.channel_index", ut.make_channel_index, geom, **kw2)
+        if c2 is not ctx.CRASH:
+            ctx.check(_same_array(c2, exp2), "C13.channel_index",
+                      lambda: f"make_channel_index({gk} geometry, radius={rad2}, pad_val={pad2}) after a call with radius="
+                              f"{radius}, pad_val={pad} on the same geometry differs from the sites within the radius")
+        # the same radius, other padding (a cache keyed without the padding), then the first request again
+        kw3 = dict(kw)
+        kw3.pop("pad_val", None)
+        if pad2 is not None:
+            kw3["pad_val"] = pad2
+        c3 = ctx.call("C13.channel_index", ut.make_channel_index, geom, **kw3)
+        if c3 is not ctx.CRASH:
+            ctx.check(_same_array(c3, _neighbour_table(lists, nch if pad2 is None else pad2)), "C13.channel_index_repeat",
+                      lambda: f"make_channel_index(radius={radius}, pad_val={pad2}) after the same call with pad_val={pad}: "
+                              f"table differs from the sites within the radius padded with {nch if pad2 is None else pad2}")
+        c4 = ctx.call("C13.channel_index", ut.make_channel_index, geom, **kw)
+        if c4 is not ctx.CRASH:
+            ctx.check(_same_array(c4, exp_ci), "C13.channel_index_repeat",
+                      lambda: f"make_channel_index(radius={radius}, pad_val={pad}) repeated on the same geometry object after "
+                              f"calls with other radius / padding (first table overwritten by the caller) differs from the "
+                              f"first answer")
+        ctx.check(_same_array(geom, geom0), "C13.channel_index_args", "make_channel_index modified the geometry it was given")
     off, length = a["off"], a["len"]
     ns2 = length + a["extra"]
     rng = np.random.default_rng(a["seed"])
@@ -423,32 +565,83 @@ def _array_level(case, ctx, x, y):
     p = rng.integers(0, nch, size=s.size)
     if a["edges"] and s.size >= 2:
         p[0], p[1] = 0, nch - 1
-    import pandas as pd
-    df = pd.DataFrame({"sample": s, "peak_channel": p})
-    nanrow = np.full((1, ns2), np.nan, dtype=dt)
-    given = arr if a["nan_row"] else np.vstack([arr, nanrow])
+    int16 = bool(a.get("arr_int16", False)) and a["nan_row"]
+    if int16:  # integer traces: only legitimate when the function appends the NaN row itself
+        arr = np.round(arr * 100).astype(np.int16)
+        dt = np.float64
+    sdt, pdt = a.get("df_dt", ["int64", "int64"])
+    dfi = a.get("df_index", "range")
+    if dfi == "offset":  # what write_wfs_chunk passes: rows of a longer table
+        index = np.arange(s.size) + 1000
+    elif dfi == "shuffled":
+        index = np.random.default_rng(a["seed"] ^ 0x5bd1).permutation(s.size)
+    else:
+        index = None
+    df = pd.DataFrame({"sample": s.astype(sdt), "peak_channel": p.astype(pdt)}, index=index)
+    df0 = df.copy(deep=True)
+    nanrow = np.full((1, ns2), np.nan, dtype=arr.dtype if not int16 else np.float64)
+    lay, aro = a.get("arr_layout", "c"), bool(a.get("arr_ro", False))
+    given = _trace_layout(arr if a["nan_row"] else np.vstack([arr, nanrow]), lay, aro)
+    given0 = np.array(given, copy=True)
+    nbk = a.get("nb_kind", "int64")
+    nbt0 = _neighbour_table(lists, nch)
+    nbt = nbt0.astype(np.int32) if nbk == "int32" else np.asfortranarray(nbt0) if nbk == "f_order" else nbt0.copy()
+    if nbk == "readonly":
+        nbt = _readonly(nbt)
     kwa = {}
     if (off, length) != (TROUGH, LENGTH) or a["extra"] % 2:
         kwa = {"trough_offset": off, "spike_length_samples": length}
+    if a.get("verbose", False):
+        kwa["verbose"] = True
     ctx.label("arr_window_default" if (off, length) == (TROUGH, LENGTH) else "arr_window_custom",
-              "arr_edges" if a["edges"] else "arr_inner")
-    r = ctx.call("C13.extract_array", wx.extract_wfs_array, given, df, _neighbour_table(lists, nch),
-                 add_nan_trace=a["nan_row"], **kwa)
-    if r is ctx.CRASH:
-        return
-    ok = isinstance(r, tuple) and len(r) == 3
-    if not ctx.check(ok, "C13.extract_array", "extract_wfs_array did not return (wfs, cind, trough_offset)"):
-        return
-    wfs, cind, toff = r
+              "arr_edges" if a["edges"] else "arr_inner", "arr_layout_" + lay, "arr_readonly" if aro else "arr_writeable",
+              "arr_int16" if int16 else ("arr_float64" if a["f64"] else "arr_float32"), "arr_df_sample_" + sdt,
+              "arr_df_peak_" + pdt, "arr_df_index_" + dfi, "arr_table_" + nbk,
+              "arr_verbose" if a.get("verbose", False) else "arr_quiet")
     exp = np.full((s.size, nn, length), np.nan, dtype=dt)
     for i in range(s.size):
         nb = lists[int(p[i])]
         exp[i, :len(nb), :] = arr[nb, int(s[i]) - off:int(s[i]) - off + length]
+
+    def _one(kind, frame):
+        r = ctx.call(kind, wx.extract_wfs_array, given, frame, nbt, add_nan_trace=a["nan_row"], **kwa)
+        if r is ctx.CRASH:
+            return None
+        if not ctx.check(isinstance(r, tuple) and len(r) == 3, kind, "extract_wfs_array did not return (wfs, cind, trough_offset)"):
+            return None
+        return r
+
+    r = _one("C13.extract_array", df)
+    if r is None:
+        return
+    wfs, cind, toff = r
     ctx.check(np.shape(wfs) == exp.shape and np.array_equal(wfs, exp, equal_nan=True), "C13.extract_array",
-              lambda: f"extract_wfs_array(offset={off}, length={length}) differs from arr[neighbours, s-off:s-off+len] "
-                      f"(shape {np.shape(wfs)} vs {exp.shape}; samples {s[:5]}.., array length {ns2})")
-    ctx.check(np.array_equal(cind, _neighbour_table(lists, nch)[p]) and toff == off, "C13.extract_array_info",
+              lambda: f"extract_wfs_array(offset={off}, length={length}, traces {lay}/{given.dtype}) differs from "
+                      f"arr[neighbours, s-off:s-off+len] (shape {np.shape(wfs)} vs {exp.shape}; samples {s[:5]}.., "
+                      f"array length {ns2})")
+    ctx.check(np.array_equal(cind, nbt0[p]) and toff == off, "C13.extract_array_info",
               "returned channel indices / trough offset differ from the request")
+    if a.get("repeat", False):
+        # same traces and table, other spikes of the same count (a buffer shared between calls, a polluted cache), then the
+        # first request again with the very same argument objects
+        ctx.label("arr_repeat")
+        df2 = pd.DataFrame({"sample": s.astype(sdt), "peak_channel": p[::-1].astype(pdt)}, index=index)
+        r2 = _one("C13.extract_array", df2)
+        ctx.check(np.shape(wfs) == exp.shape and np.array_equal(wfs, exp, equal_nan=True), "C13.extract_array_repeat",
+                  "the waveforms returned by extract_wfs_array changed when the function was called again with other spikes")
+        r3 = _one("C13.extract_array", df)
+        if r3 is not None:
+            ctx.check(np.shape(r3[0]) == exp.shape and np.array_equal(r3[0], exp, equal_nan=True)
+                      and np.array_equal(r3[1], nbt0[p]), "C13.extract_array_repeat",
+                      lambda: f"extract_wfs_array called a second time with the same traces / table / neighbour objects "
+                              f"(offset={off}, length={length}) differs from arr[neighbours, s-off:s-off+len]")
+        del r2, r3
+    try:
+        same_df = bool(df.equals(df0)) and np.array_equal(df.index.to_numpy(), df0.index.to_numpy())
+    except Exception:  # noqa
+        same_df = False
+    ctx.check(_same_array(given, given0) and _same_array(nbt, nbt0) and same_df, "C13.extract_array_args",
+              "extract_wfs_array modified the traces, the spike table or the neighbour table it was given")
 
 
 # ---------------------------------------------------------------------------------------------------
@@ -489,9 +682,14 @@ def _check_outputs(ctx, case, tag, o, src, lists, nbt, spikes, sfx):
     n = t["sample"].size
     traces, channels, templates = o["traces"], o["channels"], o["templates"]
     # shapes
-    if not ctx.check(traces.shape == (n, nn, length) and traces.dtype == np.float32 and channels.shape == (n, nn),
+    # wfs_dtype is documented as the type of the saved waveforms; float32 is accepted as well (the values are then compared
+    # exactly, otherwise after the same cast)
+    req = (case.get("dims") or {}).get("wfs_dtype")
+    allowed = {np.dtype(np.float32)} | ({np.dtype(req)} if req else set())
+    if not ctx.check(traces.shape == (n, nn, length) and traces.dtype in allowed and channels.shape == (n, nn),
                      "C13.shapes" + sfx, lambda: f"run {tag}: traces {traces.shape} {traces.dtype}, channels {channels.shape}, "
-                                                 f"table {n} rows, expected ({n}, {nn}, {length})"):
+                                                 f"table {n} rows, expected ({n}, {nn}, {length}) "
+                                                 f"{' or '.join(sorted(str(v) for v in allowed))}"):
         return None
     # per unit counts and membership
     units = [int(v) for v in np.unique(u)]
@@ -535,6 +733,9 @@ def _check_outputs(ctx, case, tag, o, src, lists, nbt, spikes, sfx):
         nb = lists[int(t["peak_channel"][i])]
         a = int(t["sample"][i]) - off
         W[i, :len(nb), :] = src[a:a + length, nb].T
+    if traces.dtype != W.dtype:
+        with np.errstate(over="ignore"):
+            W = W.astype(traces.dtype)
     bad = [i for i in range(n) if not np.array_equal(traces[i], W[i], equal_nan=True)]
     ctx.check(not bad, "C13.traces" + sfx,
               lambda: f"run {tag} (chunk {case['runs'][0 if tag == 'A' else 1]}): {len(bad)}/{n} saved waveforms differ from "
@@ -566,17 +767,44 @@ def _check_outputs(ctx, case, tag, o, src, lists, nbt, spikes, sfx):
                 worst = max(worst, float(rel.max()))
         if np.isfinite(worst) and not bad:
             ctx.stat("templates_rel_err", worst)
-        ctx.check(okt and worst <= 2.0 ** -23, "C13.templates" + sfx,
+        ctx.check(okt and worst <= (2.0 ** -10 if traces.dtype == np.float16 else 2.0 ** -23), "C13.templates" + sfx,
                   lambda: f"run {tag}: template of a cluster differs from the median of its waveforms (rel err {worst:.3g})")
     return W
+
+
+def _as_selector(vals, kind, old):
+    """labels / indices of a loader query in the drawn container kind (old = form used before the field existed)."""
+    if vals is None:
+        return None
+    kind = kind or old
+    vals = [int(v) for v in vals]
+    if kind == "list":
+        return vals
+    if kind == "tuple":
+        return tuple(vals)
+    if kind in ("int32", "uint64", "int64"):
+        return np.array(vals, dtype=kind)
+    return np.array(vals)
 
 
 def _check_loader(ctx, case, out, o, sfx):
     wx = sut.waveform_extraction()
     off = case["win"][0]
-    wl = ctx.call("C13.loader", wx.WaveformsLoader, out, trough_offset=off)
+    ld = case.get("ldims") or {}
+    data_dir = str(out) if ld.get("dir") == "str" else out
+    lkw = {} if (ld.get("omit_trough") and off == TROUGH) else {"trough_offset": off}
+    ctx.label("loader_dir_" + ("str" if isinstance(data_dir, str) else "path"),
+              "loader_trough_default" if not lkw else "loader_trough_given")
+    wl = ctx.call("C13.loader", wx.WaveformsLoader, data_dir, **lkw)
     if wl is ctx.CRASH:
         return
+    wl2 = None
+    if ld.get("twice"):
+        # a second loader on the same files while the first one is alive
+        ctx.label("loader_opened_twice")
+        wl2 = ctx.call("C13.loader", wx.WaveformsLoader, data_dir, **lkw)
+        if wl2 is ctx.CRASH:
+            return
     t = o["t"]
     n = t["sample"].size
     rank = np.zeros(n, dtype=np.int64)
@@ -585,19 +813,25 @@ def _check_loader(ctx, case, out, o, sfx):
         rank[i] = seen[v]
         seen[v] += 1
     ids = [un["id"] for un in case["units"]]
-    for q in case["queries"]:
-        labels = None if q["labels"] is None else np.array(sorted(ids[k] for k in q["labels"]))
-        indices = None if q["indices"] is None else list(q["indices"])
+
+    def _query(loader, q, scribble=False, again=False):
+        labels = _as_selector(None if q["labels"] is None else sorted(ids[k] for k in q["labels"]), q.get("lab_kind"), "array")
+        indices = _as_selector(q["indices"], q.get("ind_kind"), "list")
         sel = np.ones(n, bool)
-        if labels is not None:
-            sel &= np.isin(t["cluster"], labels)
-        if indices is not None:
-            sel &= np.isin(rank, indices)
+        if q["labels"] is not None:
+            sel &= np.isin(t["cluster"], [ids[k] for k in q["labels"]])
+        if q["indices"] is not None:
+            sel &= np.isin(rank, list(q["indices"]))
         rows = np.flatnonzero(sel)
-        ctx.label("loader_" + ("all" if labels is None else "labels") + ("" if indices is None else "+indices"))
-        r = ctx.call("C13.loader", wl.load_waveforms, labels=labels, indices=indices)
+        kind = "C13.loader_rows_repeat" if again else "C13.loader_rows"
+        kwq = {"flatten": True} if q.get("flatten") else {}
+        ctx.label("loader_" + ("all" if labels is None else "labels") + ("" if indices is None else "+indices"),
+                  "loader_labels_" + ("none" if labels is None else q.get("lab_kind") or "array"),
+                  "loader_indices_" + ("none" if indices is None else q.get("ind_kind") or "list"),
+                  "loader_flatten" if kwq else "loader_flatten_default")
+        r = ctx.call("C13.loader", loader.load_waveforms, labels=labels, indices=indices, **kwq)
         if r is ctx.CRASH:
-            continue
+            return
         try:
             wfs, info, chans = r
             got_rows = np.c_[info["sample"].to_numpy(), info["cluster"].to_numpy(), info["peak_channel"].to_numpy(),
@@ -605,20 +839,54 @@ def _check_loader(ctx, case, out, o, sfx):
             exp_rows = np.c_[t["sample"][rows], t["cluster"][rows], t["peak_channel"][rows], t["waveform_index"][rows]].reshape(-1, 4)
             ok = (np.shape(wfs) == o["traces"][rows].shape and np.array_equal(wfs, o["traces"][rows], equal_nan=True)
                   and np.array_equal(got_rows, exp_rows) and np.array_equal(chans, o["channels"][rows]))
-            msg = f"load_waveforms(labels={None if labels is None else labels.tolist()}, indices={indices}) returned " \
+            msg = f"load_waveforms(labels={None if labels is None else list(labels)} [{q.get('lab_kind') or 'array'}], " \
+                  f"indices={None if indices is None else list(indices)} [{q.get('ind_kind') or 'list'}]" \
+                  f"{', flatten=True' if kwq else ''}){' called again after other queries' if again else ''} returned " \
                   f"{np.shape(wfs)[0]} rows, expected the {rows.size} saved rows {rows[:8].tolist()}.. of those clusters/ranks"
         except Exception as e:  # noqa
             ok, msg = False, f"load_waveforms result unusable: {type(e).__name__}: {e}"
-        ctx.check(ok, "C13.loader_rows", msg)
-        r2 = ctx.call("C13.loader", wl.load_waveforms, labels=labels, indices=indices, return_info=False)
+        ctx.check(ok, kind, msg)
+        if scribble and ok:
+            # what was handed out belongs to the caller: normalising it in place must not reach the data set
+            try:
+                if isinstance(wfs, np.ndarray) and wfs.flags.writeable:
+                    wfs[...] = 0
+                if isinstance(chans, np.ndarray) and chans.flags.writeable:
+                    chans[...] = -7
+                info["sample"] = -1
+                info["waveform_index"] = -1
+            except Exception:  # noqa
+                pass
+        r2 = ctx.call("C13.loader", loader.load_waveforms, labels=labels, indices=indices, return_info=False, **kwq)
         if r2 is not ctx.CRASH:
             ctx.check(isinstance(r2, np.ndarray) and r2.shape == o["traces"][rows].shape
-                      and np.array_equal(r2, o["traces"][rows], equal_nan=True), "C13.loader_rows",
+                      and np.array_equal(r2, o["traces"][rows], equal_nan=True), kind,
                       "load_waveforms(return_info=False) differs from the saved rows")
+
+    qs = case["queries"]
+    scribble = bool(ld.get("scribble"))
+    if scribble:
+        ctx.label("loader_result_overwritten")
+    for k, q in enumerate(qs):
+        _query(wl2 if (wl2 is not None and k % 2 == 1) else wl, q, scribble=scribble)
+    if qs and (scribble or wl2 is not None):
+        # the first query again, on the first loader, after other labels / another loader / overwritten results
+        ctx.label("loader_query_repeated")
+        _query(wl, qs[0], again=True)
+        if wl2 is not None and len(qs) > 1:
+            _query(wl2, qs[0], again=True)
     try:
-        del wl
+        del wl, wl2
     except Exception:  # noqa
         pass
+    if scribble:
+        try:
+            tr = np.load(out / "waveforms.traces.npy")
+            ch = np.load(out / "waveforms.channels.npz")["channels"]
+            same = _same_array(tr, o["traces"]) and _same_array(ch, o["channels"])
+        except Exception:  # noqa
+            same = False
+        ctx.check(same, "C13.loader_modified_files", "the saved traces / channel map changed while the loader was used")
 
 
 def _same_files(a, b):
@@ -632,6 +900,19 @@ def _same_files(a, b):
     return None
 
 
+def _spike_array(a, kind, ro):
+    """The spike vector as callers hold it: own array, every second element of a longer buffer, a reversed view."""
+    if kind == "strided":
+        buf = np.zeros(2 * a.size + 1, dtype=a.dtype)
+        buf[1::2] = a
+        v = buf[1::2]
+    elif kind == "negstride":
+        v = a[::-1].copy()[::-1]
+    else:
+        v = a.copy()
+    return _readonly(v) if ro else v
+
+
 def run_case(case, ctx):
     import joblib
     wx = sut.waveform_extraction()
@@ -640,6 +921,7 @@ def run_case(case, ctx):
     off, length = case["win"]
     default_win = _default_window(case)
     sfx = "" if default_win else ".window"
+    dims = case.get("dims") or {}
     with rec.scratch_dir(ctx) as d:
         # ---- recording and geometry
         if mode.startswith("flat"):
@@ -655,8 +937,10 @@ def run_case(case, ctx):
             with open(path, "wb") as f:
                 D.tofile(f)
             rk = {"ns": ns, "nc": nc, "nsync": 1, "fs": 30000, "dtype": "float32" if mode == "flat32" else "int16"}
-            h = {"x": x.astype(float), "y": y.astype(float)}
-            ctx.label("geom_" + case["geom"]["kind"], "layout_" + case["geom"]["layout"])
+            hk = dims.get("h", "f64")  # trace_header() hands out integers, Reader.geometry float32
+            hdt = {"f32": np.float32, "int": np.int64}.get(hk, np.float64)
+            h = {"x": x.astype(hdt), "y": y.astype(hdt)}
+            ctx.label("geom_" + case["geom"]["kind"], "layout_" + case["geom"]["layout"], "h_" + hk)
         else:
             spec = case["spec"]
             nch = spec["n"]
@@ -668,7 +952,13 @@ def run_case(case, ctx):
             h = None
             eth, _ = calib.geometry(spec, sort=case["sort"])
             x, y = eth["x"], eth["y"]
-            ctx.label("geom_" + spec["gen"], "pat_" + spec["pattern"], "sort" if case["sort"] else "nosort")
+            hk = dims.get("h", "file")
+            if hk == "same":  # the geometry of the file, handed over explicitly
+                h = {"x": np.array(x, dtype=float), "y": np.array(y, dtype=float)}
+            elif hk == "other":  # a documented argument: the geometry given by the caller is the one that counts
+                x, y = _flat_geometry(dims["hgeom"])
+                h = {"x": x.astype(float), "y": y.astype(float)}
+            ctx.label("geom_" + spec["gen"], "pat_" + spec["pattern"], "sort" if case["sort"] else "nosort", "h_" + hk)
         ctx.label(mode, "window_default" if default_win else "window_custom")
         _array_level(case, ctx, x, y)
         if mode == "flat32":
@@ -719,35 +1009,102 @@ def run_case(case, ctx):
         if dup:
             ctx.label("time_shared_by_units")
         dts, dtu, dtc = case["dtypes"]
-        ss, sc, sch = s.astype(dts), u.astype(dtu), c.astype(dtc)
-        ctx.label("seed_none" if case["seed"] is None else "seed_int")
+        lay, ro = dims.get("spk", "contig"), bool(dims.get("ro", False))
+        ss, sc, sch = (_spike_array(v.astype(t), lay, ro) for v, t in ((s, dts), (u, dtu), (c, dtc)))
+        ss0, sc0, sch0 = ss.copy(), sc.copy(), sch.copy()
+        h0 = None
+        if h is not None:
+            if ro:
+                h = {k: _readonly(v) for k, v in h.items()}
+            h0 = {k: np.array(v, copy=True) for k, v in h.items()}
+        ctx.label("seed_none" if case["seed"] is None else "seed_int", "spikes_" + lay,
+                  "args_readonly" if ro else "args_writeable", "samples_" + dts)
+        bin_arg = str(path) if dims.get("path") == "str" else path
+        ctx.label("bin_file_" + ("str" if isinstance(bin_arg, str) else "path"))
+        req_dtype = dims.get("wfs_dtype")
+        ctx.label("wfs_dtype_" + (req_dtype or "default"))
+        omit_max_wf = bool(dims.get("omit_max_wf")) and max_wf == 256
+        ctx.label("max_wf_default" if omit_max_wf else "max_wf_given")
+        chan_labels = np.zeros(nch) if dims.get("chan_labels") else None
+        pre = dims.get("prerun")
 
-        # ---- two configurations
+        def _extract(out, run, tag, last, max_wf_run=None, seed=None):
+            kw = {"preprocess_steps": [], "seed": case["seed"] if seed is None else seed, "h": h}
+            if not default_win:
+                kw.update(trough_offset=off, spike_length_samples=length)
+            if mode == "meta_cbin" and not (last and dims.get("omit_scratch_last")):
+                # default form only for the last extraction: it removes the .meta file next to the .cbin
+                kw["scratch_dir"] = d / ("dec" + tag)
+            if not (dims.get("omit_reader_kwargs") and rk == {"sort": True}):
+                kw["reader_kwargs"] = dict(rk)
+            if not run.get("omit_chunk") or run["chunk"] != 3000:
+                kw["chunksize_samples"] = run["chunk"]
+            if not run.get("omit_jobs"):
+                kw["n_jobs"] = run["jobs"]
+            if max_wf_run is not None or not omit_max_wf:
+                kw["max_wf"] = max_wf if max_wf_run is None else max_wf_run
+            if req_dtype is not None:
+                kw["wfs_dtype"] = np.dtype(req_dtype).type
+            if chan_labels is not None:
+                kw["channel_labels"] = chan_labels
+            with joblib.parallel_config(backend=run["backend"]):
+                wx.extract_wfs_cbin(bin_arg, out, ss, sc, sch, **kw)
+
+        def _args_untouched(tag):
+            if not dims.get("check_args", True):
+                return
+            same = _same_array(ss, ss0) and _same_array(sc, sc0) and _same_array(sch, sch0)
+            if h is not None:
+                same = same and all(_same_array(h[k], h0[k]) for k in h0) and set(h) == set(h0)
+            ctx.check(same, "C13.arguments_modified",
+                      f"run {tag}: extract_wfs_cbin modified the spike samples / clusters / channels or the geometry it was given")
+
+        # ---- two configurations (the first optionally into a directory that holds an earlier, larger extraction)
         outs = []
         for tag, run in zip("AB", case["runs"]):
             out = d / ("out" + tag)
             out.mkdir()
-            kw = {}
-            if not default_win:
-                kw = {"trough_offset": off, "spike_length_samples": length}
-            if mode == "meta_cbin":
-                kw["scratch_dir"] = d / ("dec" + tag)
-
-            def _extract():
-                with joblib.parallel_config(backend=run["backend"]):
-                    wx.extract_wfs_cbin(path, out, ss, sc, sch, h=h, max_wf=max_wf, chunksize_samples=run["chunk"],
-                                        reader_kwargs=dict(rk), n_jobs=run["jobs"], preprocess_steps=[], seed=case["seed"], **kw)
+            last = tag == "B"
+            for lab, flag in (("chunksize", run.get("omit_chunk") and run["chunk"] == 3000), ("n_jobs", run.get("omit_jobs")),
+                              ("reader_kwargs", dims.get("omit_reader_kwargs") and rk == {"sort": True}),
+                              ("scratch_dir", mode == "meta_cbin" and last and dims.get("omit_scratch_last"))):
+                if flag:
+                    ctx.label(lab + "_default")
+            pre_rows = None
+            if pre and tag == "A":
+                r = ctx.call("C13.extract" + sfx, _extract, out, case["runs"][1], "P", False,
+                             max_wf_run=max_wf + pre["add"], seed=pre["seed"])
+                if r is not ctx.CRASH:
+                    _args_untouched("P")
+                    op = _load_outputs(ctx, out, "P")
+                    if op is not None:
+                        pre_rows = op["t"]["sample"].size
+                        if pre.get("loader"):
+                            # a loader used on the earlier files and dropped before they are replaced
+                            wlp = ctx.call("C13.loader", wx.WaveformsLoader, out)
+                            if wlp is not ctx.CRASH:
+                                rp = ctx.call("C13.loader", wlp.load_waveforms, return_info=False)
+                                if rp is not ctx.CRASH:
+                                    ctx.check(_same_array(rp, op["traces"]), "C13.loader_rows",
+                                              "load_waveforms(return_info=False) differs from the saved rows (earlier run)")
+                                del rp
+                            del wlp
+                    del op
             nchunks = -(-ns // run["chunk"])
             ctx.label("chunks=1" if nchunks == 1 else "chunks=2-5" if nchunks <= 5 else "chunks>5",
-                      "jobs=1" if run["jobs"] == 1 else "jobs>1", "backend_" + run["backend"])
-            r = ctx.call("C13.extract" + sfx, _extract)
+                      "jobs_default" if run.get("omit_jobs") else "jobs=1" if run["jobs"] == 1 else "jobs>1",
+                      "backend_" + run["backend"])
+            r = ctx.call("C13.extract" + sfx, _extract, out, run, tag, last)
             if r is ctx.CRASH:
                 outs.append(None)
                 continue
+            _args_untouched(tag)
             o = _load_outputs(ctx, out, tag)
             outs.append(o)
             if o is None:
                 continue
+            if pre_rows is not None:
+                ctx.label("rerun_same_dir", "rerun_over_larger" if pre_rows > o["t"]["sample"].size else "rerun_over_equal")
             _check_outputs(ctx, case, tag, o, src, lists, nbt, (s, u, c), sfx)
             if tag == "A":
                 _check_loader(ctx, case, out, o, sfx)
